@@ -386,11 +386,24 @@ def evGroup {δ : Type} (S : Sem δ) : Option Group → Bool
   | none => true
   | some (n, k, vs) => vs.any fun v => S.atom n ⟨k, v⟩
 
-/-- the compiled program run on one packet: `Apply`, `addFallback`, then the scan. -/
+/-- `consts.MaxMatchSetLen`: the domain matcher has per-set tables of this size; a domain match set at
+an index beyond it is a build error (`AhocorasickSlimtrie.AddSet`). -/
+def maxMatchSetLen : Nat := 1024
+
+def isDomainSet : Option Group → Bool
+  | some (n, _, _) => n == "domain" || n == "qname"
+  | none => false
+
+def domainSetTooFar {δ : Type} (es : List (Entry (Option Group) δ)) : Bool :=
+  (es.zipIdx).any fun (e, i) => isDomainSet e.cond && decide (maxMatchSetLen ≤ i)
+
+/-- the compiled program run on one packet: `Apply`, `addFallback`, the matcher build, then the scan. -/
 def compiledDecision {δ : Type} (S : Sem δ) (p : Prog) (fb : δ) (must : Bool) : Option (δ × Bool) :=
   match lowerProg S.perValue S.parseOut p with
   | none => none
-  | some es => scanAux (evGroup S) (es ++ [⟨none, false, .final fb⟩]) false false must
+  | some es =>
+    if domainSetTooFar es then none
+    else scanAux (evGroup S) (es ++ [⟨none, false, .final fb⟩]) false false must
 
 /-! ## `daedns.compileMatcher`: the compiled internal-selector matcher -/
 
